@@ -189,8 +189,8 @@ theorem C18_content_partial (lib : List Nat) (r : Nat) (f : File) (hwf : WF f) (
 /-- a property `a` with a reference text next to a property named `a.reference` -/
 def clash : File :=
   { version := [1, 1, 0], id := .absent,
-    props := [(["s", "properties", "a"], .old ⟨"int64", [⟨.int 1, 0, "ref", "", "", ""⟩], none, none⟩),
-              (["s", "properties", "a.reference"], .old ⟨"int64", [⟨.int 5, 0, "", "", "", ""⟩], none, none⟩)],
+    props := [(["s", "properties", "a"], .old ⟨"int64", [⟨.int 1, .fin 0, "ref", "", "", ""⟩], none, none⟩),
+              (["s", "properties", "a.reference"], .old ⟨"int64", [⟨.int 5, .fin 0, "", "", "", ""⟩], none, none⟩)],
     arrays := [], other := "" }
 
 theorem clash_collect : collect [1, 2, 1] clash =
@@ -219,8 +219,8 @@ example : ¬ Clean clash := by decide +kernel
 
 def sample : File :=
   { version := [1, 1, 0], id := .absent,
-    props := [(["s", "properties", "b"], .old ⟨"int64", [⟨.int 1, 1/2, "r", "", "", ""⟩, ⟨.int 2, 0, "", "", "", ""⟩], some "d", none⟩),
-              (["s", "properties", "a"], .old ⟨"str", [⟨.str "x", 0, "", "", "", ""⟩], none, some "mV"⟩)],
+    props := [(["s", "properties", "b"], .old ⟨"int64", [⟨.int 1, .fin (1/2), "r", "", "", ""⟩, ⟨.int 2, .nan, "", "", "", ""⟩], some "d", none⟩),
+              (["s", "properties", "a"], .old ⟨"str", [⟨.str "x", .fin 0, "", "", "", ""⟩], none, some "mV"⟩)],
     arrays := [⟨"/data/b/data_arrays/a", "id-a", "[1/1]", some "s", none,
                 [⟨"1", "range", none, none, none, true, none⟩]⟩],
     other := "" }
